@@ -17,7 +17,9 @@ CHECKS = {
                 note="Trusted: z3; my ~1.2 kLOC interpreter (guarded by native replay of every counterexample, native validation of "
                      "solver-chosen accepted/rejected sequences per encoding, reachability twins, unwinding and overflow obligations); "
                      "the reference semantics in vlib/refmodel.py. Bounds: quick L<=5 fail-fast / L<=4 collecting (5/3 on the five "
-                     "widest rules), thorough 8/6 (6/4).",
+                     "widest rules), thorough 8/6 (6/4); plus a state cover (access word of every reference-automaton state + <= 2/3 symbolic "
+                     "names) and call-history encodings (the same parent validated before, lengths 1-2/3). Code the merged interpreter cannot "
+                     "model exactly is explored path-wise with a coverage obligation; module state is restored before every encoding.",
                 ref="DESIGN.md 3 C01"),
     "C02": dict(engine="pybmc", technique=PYBMC,
                 text="Bounded model checking of the content-validation decision logic: per rule, content is None or an abstract string "
@@ -47,8 +49,8 @@ CHECKS = {
                 text="For every ordered tree shape up to N nodes, with a symbolic name ({metadata, other}) and an uninterpreted pass/fail outcome per "
                      "node, z3 shows validate.tree accepts iff every node not below a metadata element passes, never visits a node below metadata, "
                      "raises the first failing node's error, and in collecting mode produces the document-order concatenation.",
-                note="N<=5 quick (23 shapes), N<=7 thorough (197 shapes). validate.node is stubbed by an uninterpreted outcome (that is the "
-                     "property's own abstraction). A restructured traversal the merged interpreter cannot model is explored path-wise with a "
+                note="N<=5 quick (23 shapes), N<=7 thorough (197 shapes); names range over metadata, three known element names and any other "
+                     "string. validate.node is stubbed by an uninterpreted outcome (that is the property's own abstraction). A restructured traversal the merged interpreter cannot model is explored path-wise with a "
                      "coverage obligation.",
                 ref="DESIGN.md 3 C05"),
     "C10": dict(engine="pybmc", technique=PYBMC,
@@ -71,7 +73,8 @@ CHECKS = {
                      "ids, order, parent links and registry entries, that re-dumping gives the identical document, the same for the legacy codec on its five fields, and "
                      "that an upgraded legacy document loads as the same tree with empty namespace data.",
                 note="json is replaced by a deep-copying contract stub (CPython json trusted); one symbolic Optional[str] field per condition, length <= 3 quick / 4 "
-                     "thorough; names and dict keys concrete; trees obey the namespace-inclusion invariant.",
+                     "thorough; names and dict keys concrete; trees obey the namespace-inclusion invariant. Code that post-processes the JSON text is "
+                     "beyond the stub (reported inconclusive); 102 concrete trees with awkward Unicode go through the real json module (labelled corpus).",
                 ref="DESIGN.md 3 C06"),
     "C07": dict(engine="crosshair", technique=CH,
                 text="Per symbolic field (content, tails, attribute / qualified attribute / namespace values at two depths, mixed content, empty element; EML exporter: "
@@ -92,7 +95,8 @@ CHECKS = {
                 text="Inductive step: from a symbolic pre-state (parent with K children named over {a,b}, grandchildren, bystander tree) each edit operation with "
                      "arbitrary arguments is confirmed against an ordered-list model, incl. failure atomicity, registry effect of replace, shift's return value; query "
                      "methods are confirmed against a document-order oracle on all start nodes of small shapes with symbolic names, query names and paths.",
-                note="K <= 4 quick / 6 thorough; index in [-8, 8]; shapes <= 5 nodes; paths <= 3 names. Caller obligation (one parent at a time) is the precondition.",
+                note="K <= 4 quick / 6 thorough; index in [-8, 8]; shapes <= 5 nodes; paths <= 3 names; every query is issued before the edit and verified "
+                     "after it. Caller obligation (one parent at a time) is the precondition.",
                 ref="DESIGN.md 3 C09"),
     "C11": dict(engine="crosshair", technique=CH,
                 text="For each of 14 read-only operations and each kind of symbolic text field, CrossHair confirms that the deep state (all fields, child order, namespace "
@@ -102,7 +106,8 @@ CHECKS = {
     "C12": dict(engine="crosshair", technique=CH,
                 text="CrossHair confirms that copying any subtree of a shape gives an equal tree with fresh registered ids, internal parent links and no shared "
                      "containers, and that one symbolic edit (11 kinds) on either tree never shows in the other.",
-                note="Shapes <= 5 nodes (2 quick, 9 thorough), homogeneous and heterogeneous namespace maps, strings <= 3 / 4.",
+                note="Shapes <= 5 nodes (2 quick, 9 thorough), homogeneous and heterogeneous namespace maps, strings <= 3 / 4; plus copy -> copy of the copy "
+                     "-> copy of an unrelated tree on nodes whose containers start empty.",
                 ref="DESIGN.md 3 C12"),
     "C13": dict(engine="crosshair", technique=CH,
                 text="Bounded histories (depth 2, thorough also 3) of declare/remove/attach over 4-node forests, and one operation from an ARBITRARY dict-sharing "
